@@ -80,7 +80,7 @@ def c01_plan(pid, tier, seed, t0):
         "generator's tree, compared as JSON with numbers by value. Non-trivial = agreeing non-null result on a tree with >=3 nodes and >=2 node "
         "kinds (>=2 steps in the enumeration); distinct by (tree hash, document hash)." % enum_len,
         n_quick=600_000,
-        n_thorough=60_000_000,
+        n_thorough=36_000_000,
         min_evaluations=50_000,
         extra_args=["--enum-len", enum_len],
         exhaustive=True,
@@ -166,7 +166,7 @@ def c04_plan(pid, tier, seed, t0):
         "documents. Non-trivial = expression with operators of >=2 different binding powers (or a twin that really lost parentheses); "
         "distinct by expression text." % enum_len,
         n_quick=240_000,
-        n_thorough=40_000_000,
+        n_thorough=24_000_000,
         min_evaluations=100_000,
         extra_args=["--enum-len", enum_len],
         assumptions=["regrouping of pure composition ('.', postfix brackets, '|') is invisible in the normal form by design: composition is associative, so it does not affect what the statement constrains"],
@@ -401,7 +401,7 @@ PLANS["C02"] = generic(
     "array's elements, each once; (c) value-guided random trees containing calls nested in projections, multi-selects and other calls vs the "
     "reference evaluator. Non-trivial = non-empty principal argument / non-null nested result; distinct by (expression, document).",
     n_quick=1_200_000,
-    n_thorough=200_000_000,
+    n_thorough=140_000_000,
     min_evaluations=200_000,
     assumptions=["not asserted: which of several equal-key elements max_by/min_by returns; whitespace-padded or out-of-range numerals in to_number; non-finite sums; exprefs passed for 'any' parameters"],
 )
@@ -432,7 +432,7 @@ PLANS["C06"] = c06_plan
 def c07_plan(pid, tier, seed, t0):
     builds = ["chk", "rel"]
     rundir, staged = o.prepare(builds)
-    n = 400_000 if tier == "quick" else 60_000_000
+    n = 400_000 if tier == "quick" else 40_000_000
     per = (n + o.NCPU - 1) // o.NCPU
     merged = None
     py_records = 0
@@ -642,7 +642,7 @@ PLANS["C11"] = generic(
     "tuple/record; !, &&, || vs truth-table combination returning operands; comparisons vs comparing the two results; f(L, R) vs f(@[0], @[1]) on "
     "[L(d), R(d)]. A failing part must fail the compound (same class) unless short-circuiting makes it unreachable. Non-trivial = L(d) non-empty / "
     "non-null and R not the identity; distinct by (compound text, document).",
-    n_quick=300_000, n_thorough=30_000_000, min_evaluations=300_000, needs_ref=False,
+    n_quick=300_000, n_thorough=15_000_000, min_evaluations=300_000, needs_ref=False,
     assumptions=["truthiness of a predicate result is decided by the specification's definition in the harness"],
 )
 
@@ -704,7 +704,7 @@ PLANS["C13"] = generic(
     "value prints the same before and after every search. Evidence only: whether interpret step counts per pair stayed constant. Non-trivial = a "
     "search on a re-used/cloned handle or directly after a failing search of the same expression; distinct by (pool, expression, document, "
     "predecessor outcome).",
-    n_quick=640, n_thorough=300_000, min_evaluations=300_000, needs_ref=False, post=c13_post, extra_args_by_tier={"quick": ["--pools", "8"], "thorough": ["--pools", "192"]},
+    n_quick=640, n_thorough=300_000, min_evaluations=300_000, needs_ref=False, post=c13_post, extra_args_by_tier={"quick": ["--pools", "8"], "thorough": ["--pools", "128"]},
 )
 
 
@@ -732,7 +732,7 @@ PLANS["C15"] = generic(
     "iff an independent signature check accepts (else the error class, and no invocation). Logged arguments must equal the separately evaluated "
     "argument expressions in source order with expression references passed unevaluated (tree shape compared); plus a call-order probe with "
     "recording functions as arguments (incl. inside a projection). Non-trivial = modelled custom invocation or rejection; distinct by (history, call).",
-    n_quick=12_000, n_thorough=2_400_000, min_evaluations=300_000,
+    n_quick=12_000, n_thorough=1_400_000, min_evaluations=300_000,
 )
 
 
@@ -905,6 +905,9 @@ def c16_plan(pid, tier, seed, t0):
                     violation("C16/process-died/%s" % cause, {"cmd": " ".join(cmd[1:]), "stderr": stderr[-800:]})
                     continue
                 obs["runs/%s" % kind] = obs.get("runs/%s" % kind, 0) + 1
+                if out.get("watchdog"):
+                    merged["inconclusive"].append("%s: threads still running after 300 s (not blocked: CPU was being used)" % " ".join(cmd[1:]))
+                    continue
                 if out["mode"] == "stress":
                     merged["evaluations"] += out["searches"]
                     sigs.add(kind + ":" + out["interleaving"])
